@@ -52,6 +52,26 @@ func (g *gcfg) c04Check(w *World) []Violation {
 		}
 	}
 	if ri < 0 {
+		// a trigger fired but the project was not brought down
+		if w.Outcome == "stuck" {
+			for _, e := range tr {
+				n := g.nodes[baseOf(e.Proc)]
+				if e.Kind == "exit" && !e.Flag && ((n.Restart == "exit_on_failure" && e.Code != 0) || n.ExitOnEnd) {
+					kind := "exit_on_end"
+					if !n.ExitOnEnd {
+						kind = "exit_on_failure"
+					}
+					class := "positive"
+					if e.Code < 0 {
+						class = "signal"
+					} else if e.Code == 0 {
+						class = "zero"
+					}
+					vs = append(vs, viol("C04", "no-shutdown:"+kind+":"+class, "%s (%s) exited with code %d but the project keeps running", e.Proc, kind, e.Code))
+					break
+				}
+			}
+		}
 		return vs
 	}
 	// exit code
@@ -160,6 +180,13 @@ func c04Scenarios(tier string) []*Scenario {
 	vic2.Restart = "exit_on_failure"
 	add([]GNode{eof, vic2})
 	add([]GNode{eof, vic, vic2c()})
+	// an exit_on_failure process killed by a signal on its own (OOM kill, segfault): exit code -1 is non-zero
+	{
+		n := fail("a", -1)
+		n.Restart = "exit_on_failure"
+		add([]GNode{n, d("b")})
+		add([]GNode{n, ok("b"), d("c")})
+	}
 	// trigger kind x victim kind grid: the code must always be that of the trigger
 	{
 		trig := func(kind string) []GNode {
